@@ -149,7 +149,7 @@ ARMS = [
         ensures=[WFOK, "r is Ok ==> final(self).sp == old(self).sp - %s + 1 && %s == ip + 2" % (OP16, IPF)],
         rewrites=[dict(rule="R3", re=r"Array::new\(elements\)", to="array_new(elements)", expect=1, why="opaque Array constructor shim")]),
     arm("Map", 2, props=["C14", "C08", "C13"],
-        requires=["%s <= old(self).sp" % OP16],
+        requires=["%s <= old(self).sp" % OP16, "(%s) %% 2 == 0" % OP16],   # compiler: keys and values were pushed in pairs
         ensures=[WFOK, "r is Ok ==> final(self).sp == old(self).sp - %s + 1 && %s == ip + 2" % (OP16, IPF)],
         rewrites=[dict(rule="R3", re=r"self\.build_map\(", to="vm_build_map(self, ", expect=1, why="build_map (HashMap insertion loop) behind a contract: Err carries the line, the VM is not changed"),
                   dict(rule="R3", re=r"HMap::new\(pairs\)", to="hmap_new(pairs)", expect=1, why="opaque HMap constructor shim")]),
